@@ -36,6 +36,8 @@ type entry struct {
 	ID     int    `json:"id"`
 	Kind   string `json:"kind"`
 	Schema M      `json:"schema"`
+	Method string `json:"method"`
+	At     string `json:"at"`
 }
 
 var pool = []string{`null`, `true`, `false`, `0`, `1`, `2`, `3`, `4`, `5`, `6`, `10`, `-1`, `-2`, `-5`, `0.5`, `1.5`, `2.5`, `-0.5`, `-1.5`, `1.0`, `2e0`, `0.25`, `0.75`, `1e2`, `2.0000001`, `9007199254740993`,
@@ -244,7 +246,11 @@ func main() {
 						}
 						switch e.Kind {
 						case "query":
-							status, handled, respBody, pan = srv.do("GET", fmt.Sprintf("http://x/q%d?v=%s", e.ID, url.QueryEscape(inst)), http.Header{}, "")
+							method, at := "GET", fmt.Sprintf("/q%d", e.ID)
+							if e.At != "" {
+								method, at = e.Method, e.At
+							}
+							status, handled, respBody, pan = srv.do(method, fmt.Sprintf("http://x%s?v=%s", at, url.QueryEscape(inst)), http.Header{}, "")
 						case "path":
 							status, handled, respBody, pan = srv.do("GET", fmt.Sprintf("http://x/p%d/%s", e.ID, url.PathEscape(inst)), http.Header{}, "")
 						case "header":
